@@ -591,7 +591,8 @@ func ruleC05Ping(rule string) ruleFn {
 		fn := c.Anchor(rule, fRem+"monitorPing")
 		if fn != nil {
 			R := NewRenderer(fn)
-			pings := CallsTo(fn, fCli+"Ping")
+			// the client may be held through a small interface of its own (invoke) or as *rpc.Client
+			pings := CallsTo(fn, fCli+"Ping", "invoke:Ping")
 			if len(pings) != 1 {
 				c.Bad(rule, FnName(fn)+" | structure", "", "expected one client.Ping()", nil)
 			} else {
@@ -601,10 +602,37 @@ func ruleC05Ping(rule string) ruleFn {
 					d string
 					g func(ssa.Instruction) bool
 				}{
-					{"client.SetError(err)", func(in ssa.Instruction) bool { return callRender(R, in) == fCli+"SetError($1,"+fCli+"Ping($1))" }},
+					{"client.SetError(err)", func(in ssa.Instruction) bool {
+						cl, ok := in.(*ssa.Call)
+						if !ok || !(callMatches(in, fCli+"SetError") || callMatches(in, "invoke:SetError")) {
+							return false
+						}
+						// on the client that was pinged, with the ping's own error
+						pe := errOfCall(pings[0])
+						okArg := false
+						for _, a := range cl.Call.Args {
+							if sameValue(a, pe) || R.V(a) == R.V(pe) {
+								okArg = true
+							}
+						}
+						pc, cc := pings[0].(*ssa.Call).Call, cl.Call
+						recvP, recvC := "", ""
+						if pc.IsInvoke() {
+							recvP = R.V(pc.Value)
+						} else if len(pc.Args) > 0 {
+							recvP = R.V(pc.Args[0])
+						}
+						if cc.IsInvoke() {
+							recvC = R.V(cc.Value)
+						} else if len(cc.Args) > 0 {
+							recvC = R.V(cc.Args[0])
+						}
+						return okArg && recvP == recvC
+					}},
 					{"r.monitorChan <- err", func(in ssa.Instruction) bool {
 						s, ok := in.(*ssa.Send)
-						return ok && R.V(s.Chan) == "$0.monitorChan" && R.V(s.X) == fCli+"Ping($1)"
+						pe := errOfCall(pings[0])
+						return ok && R.V(s.Chan) == "$0.monitorChan" && (sameValue(s.X, pe) || R.V(s.X) == R.V(pe))
 					}},
 				} {
 					ws := afterEdge(fn, nonNil, st.g, nil, isRet)
